@@ -64,11 +64,12 @@ type Prog struct {
 	Straight bool    `json:"straight,omitempty"` // body is straight-line code: prefixes can be run to localise a mismatch
 	Want     mon.Hex `json:"want,omitempty"`     // vector cases: expected top-of-stack word
 	Note     string  `json:"note,omitempty"`
-	Mode     string  `json:"mode,omitempty"`  // "" = deployed and called; "create" = run as the initcode of a top-level creation
-	Blob     mon.Hex `json:"blob,omitempty"`  // bytes appended after the epilogue (initcodes read with CODECOPY)
-	HiGas    bool    `json:"higas,omitempty"` // CREATE family: 1e15 gas
-	Edge     bool    `json:"edge,omitempty"`  // stack-boundary case: when the reference leaves its scope, the real run must still not report a stack fault
-	Depth    int     `json:"depth,omitempty"` // stack-boundary case: stack depth at which Op is offered
+	Mode     string  `json:"mode,omitempty"`   // "" = deployed and called; "create" = run as the initcode of a top-level creation
+	Blob     mon.Hex `json:"blob,omitempty"`   // bytes appended after the epilogue (initcodes read with CODECOPY)
+	HiGas    bool    `json:"higas,omitempty"`  // CREATE family: 1e15 gas
+	Edge     bool    `json:"edge,omitempty"`   // stack-boundary case: when the reference leaves its scope, the real run must still not report a stack fault
+	Depth    int     `json:"depth,omitempty"`  // stack-boundary case: stack depth at which Op is offered
+	Record   bool    `json:"record,omitempty"` // recorded, not judged (overlapping call areas)
 }
 
 // epilogue builds the fixed-length observation epilogue for a frame that
@@ -132,6 +133,8 @@ type harness struct {
 	refHist [256]int64 // reference: instructions completed, in runs that agreed with the real EVM
 
 	evals        int64
+	shard        int
+	noted        bool
 	distinctSeen int
 	scratch      string
 }
@@ -545,6 +548,26 @@ func (h *harness) runCase(p *Prog) {
 	if v.skipped {
 		return
 	}
+	if p.Record { // facts only: no verdict
+		if !v.mismatch {
+			r.Count("recorded:overlapping_call_areas:agrees_with_reference", 1)
+			return
+		}
+		r.Count("recorded:overlapping_call_areas:differs_from_reference", 1)
+		if v.real.class == v.ref.Class && v.diffStep < 0 && v.real.state == "" {
+			r.Count("recorded:overlapping_call_areas:only_return_data_copy_differs", 1)
+		}
+		if h.shard == 0 && !h.noted && h.cfgName == "default" && len(v.ref.Ret) >= 0x200+32 && len(v.real.ret) == len(v.ref.Ret) {
+			h.noted = true
+			n := len(v.ref.Ret) - 64 - 0x200 // memory [0x200, msize) holds the RETURNDATACOPY result
+			if n > 64 {
+				n = 64
+			}
+			r.Note("RECORDED (not judged) %s %s: program %x (+ dump epilogue), calldata byte i = 7i+1 mod 256 (%d bytes): RETURNDATACOPY of the whole buffer gives %x, the input bytes at call time were %x; memory[0,64) after the call: real %x reference %x",
+				p.Op, p.Note, []byte(p.Body), len(p.Data), v.real.ret[0x200:0x200+n], v.ref.Ret[0x200:0x200+n], v.real.ret[:64], v.ref.Ret[:64])
+		}
+		return
+	}
 	h.evals++
 	r.Count("programs:"+p.Family, 1)
 	r.Count("outcome:"+v.ref.Class.String(), 1)
@@ -608,6 +631,8 @@ func (h *harness) runCase(p *Prog) {
 		sig = "C10:jump:invalid-destination-accepted"
 	case v.real.err == vm.ErrInvalidJump && v.ref.Reason != "bad-jump":
 		sig = "C10:jump:valid-destination-rejected"
+	case p.Family == "retdata" && v.real.class == v.ref.Class && v.diffStep < 0:
+		sig = "C10:RETURNDATACOPY:result-mismatch" // same path, same sizes: only the copied bytes differ
 	}
 	if sig == "" && p.Straight {
 		// localise: shortest instruction prefix that already disagrees
@@ -686,6 +711,7 @@ func childMain(r *mon.Run, args []string) {
 	shard, _ := strconv.Atoi(args[1])
 	nshards, _ := strconv.Atoi(args[2])
 	h := boot(r, cfgName)
+	h.shard = shard
 	ft := feat{push0: h.cfg.Push0, mcopy: h.cfg.Mcopy}
 	fams := families(r, cfgName, ft, h.defined)
 	sampled := 0
@@ -842,6 +868,8 @@ func main() {
 			"seeded random straight-line, memory-biased, branching (loops, if/else, jumps over junk, bad jump targets) and jump-maze programs; " +
 			"stack boundary: every defined Ethereum opcode offered at (required-1), (required), (1024 - growth) and one more item (distinct (fork, opcode, depth) pairs in distinct_sets.edge_pair; for opcodes outside the set only the stack check and the trace prefix are judged); " +
 			"creation trees: a called contract or a top-level creation that CREATEs 2-4 different hash-less initcodes (also nested), each taking a jump, with offsets that are a JUMPDEST in one and PUSH data in another (both orders, longer later initcode) — result, return data, all-frame trace, created code, nonces and written storage slots compared; " +
+			"return-data buffer: CALL/CALLCODE/DELEGATECALL/STATICCALL (value 0) to the precompiles 4 (mostly), 2, 3, to a freshly created callee (echo / constant / revert / invalid / storage-writing) or to a non-existent account, with a non-empty input area and an output area that is empty or disjoint from it, then 1-5 MSTORE/MSTORE8/MCOPY/CALLDATACOPY/CODECOPY over and around the input area (with and without memory expansions before the call and between the writes), then RETURNDATASIZE and RETURNDATACOPY (whole, partial, empty at the end, past the end => must halt); " +
+			"calls whose output area overlaps the input area are only recorded (counters recorded:*, one exact program in the notes), not judged; " +
 			"all in the default fork schedule and with Proposal022 (PUSH0/MCOPY) inactive. " +
 			"Non-trivial: >= 3 instructions executed and normal termination (RETURN/REVERT/STOP) in the reference; distinct by hash of code+calldata (recorded for the first 150k non-trivial programs of every child).",
 		Assumptions: []string{
@@ -852,6 +880,6 @@ func main() {
 			"environment pushers (ADDRESS ... GAS) are judged for their stack effect only; CREATE with a non-zero value is outside the reference",
 		},
 		MustObserve: []string{"vector_checks", "reference_selfcheck_ok", "histogram_every_opcode_ge_1000", "bad_jump_programs", "nontrivial_programs",
-			"programs:grid2", "programs:grid3", "programs:line", "programs:branch", "programs:jumpmap", "programs:mem", "programs:edge", "programs:create", "programs_with_inner_frames", "edge_evaluations", "max_table_defined_default", "max_table_defined_pre022"},
+			"programs:grid2", "programs:grid3", "programs:line", "programs:branch", "programs:jumpmap", "programs:mem", "programs:edge", "programs:create", "programs:retdata", "programs_with_inner_frames", "edge_evaluations", "max_table_defined_default", "max_table_defined_pre022"},
 	})
 }
